@@ -298,6 +298,16 @@ func (rds *RaftDiskStorage) CreateSnapshot(i uint64, cs *raftpb.ConfState, data 
 	return nil
 }
 
+// ClearIndex is the index up to which a node may drop entry files when it applies a ClearEntryLog
+// entry: the index the leader proposed, but never beyond the node's own snapshot index, from which
+// the node replays its log after a restart.
+func ClearIndex(index, ownSnapshot uint64) uint64 {
+	if index > ownSnapshot {
+		return ownSnapshot
+	}
+	return index
+}
+
 func (rds *RaftDiskStorage) DeleteBefore(index uint64) error {
 	// Now we delete all the files which are below the snapshot index.
 	return rds.entryLog.deleteBefore(index)
